@@ -444,7 +444,7 @@ def root_local(fd, l, depth=0):
 
 
 NARROWING = ("::filter", "::filter_map", "::skip", "::take", "::skip_while", "::take_while", "::step_by", "::skip_any", "::take_any",
-             "::skip_any_while", "::take_any_while", "::nth", "::rev_skip")
+             "::skip_any_while", "::take_any_while", "::nth", "::rev_skip", "::map_while")
 
 
 def narrowing_calls(fd, ins, argi, stop_at=()):
